@@ -56,7 +56,9 @@ fn main() {
     let t0 = Instant::now();
     let ctx = Ctx::new(id, tier, seed, &profile);
     ctx.info("debug_assertions", serde_json::json!(cfg!(debug_assertions)));
-    ctx.info("threads", serde_json::json!(rayon::current_num_threads()));
+    if id != "miri-leg" {
+        ctx.info("threads", serde_json::json!(rayon::current_num_threads()));
+    }
     if !checks::run(id, &ctx) {
         eprintln!("unknown check {id}");
         std::process::exit(2);
